@@ -21,5 +21,6 @@ theorem el_cases : Tea.Gen.fact_el_cases = Tea.Doc.fact_el_cases := rfl
 theorem body_Program_Send : Tea.Gen.fact_body_Program_Send = Tea.Doc.fact_body_Program_Send := rfl
 theorem body_Program_handleCommands : Tea.Gen.fact_body_Program_handleCommands = Tea.Doc.fact_body_Program_handleCommands := rfl
 theorem el_case_sequenceMsg : Tea.Gen.fact_el_case_sequenceMsg = Tea.Doc.fact_el_case_sequenceMsg := rfl
+theorem body_NewProgram : Tea.Gen.fact_body_NewProgram = Tea.Doc.fact_body_NewProgram := rfl
 
 end Tea.Props.Bridge.C03
